@@ -7,7 +7,6 @@
 package dial
 
 import (
-	"runtime/debug"
 	"bufio"
 	"context"
 	"crypto/sha1"
@@ -18,6 +17,7 @@ import (
 	"io"
 	"net"
 	"runtime"
+	"runtime/debug"
 	"strings"
 	"sync"
 	"syscall"
@@ -79,7 +79,8 @@ type Conn struct {
 	// hook is called at "enter" and "exit" (success only) of every Read/Write.
 	hook func(k int, op, phase string)
 
-	segMax int // max bytes per Read (0: all)
+	segMax int  // max bytes per Read (0: all)
+	owned  bool // a layer above keeps the deadlines (ownDLConn)
 }
 
 func newConn(start time.Time) *Conn {
@@ -224,9 +225,36 @@ func (c *Conn) setDL(which string, t time.Time) {
 	c.cond.Broadcast()
 }
 
-func (c *Conn) SetDeadline(t time.Time) error      { c.setDL("setdeadline", t); return nil }
-func (c *Conn) SetReadDeadline(t time.Time) error  { c.setDL("setreaddeadline", t); return nil }
-func (c *Conn) SetWriteDeadline(t time.Time) error { c.setDL("setwritedeadline", t); return nil }
+func (c *Conn) SetDeadline(t time.Time) error      { c.rawDL("setdeadline", t); return nil }
+func (c *Conn) SetReadDeadline(t time.Time) error  { c.rawDL("setreaddeadline", t); return nil }
+func (c *Conn) SetWriteDeadline(t time.Time) error { c.rawDL("setwritedeadline", t); return nil }
+
+// rawDL is a deadline call on the connection itself. When a layer above it
+// keeps the deadlines (ownDLConn), calls that bypass that layer are recorded
+// and change nothing, as with a tunnel or a buffering wrapper that does not
+// forward them.
+func (c *Conn) rawDL(which string, t time.Time) {
+	if c.owned {
+		c.mu.Lock()
+		c.log(Event{Op: "below_wrapper_" + which, Zero: t.IsZero(), Past: !t.IsZero() && !time.Now().Before(t)})
+		c.mu.Unlock()
+		return
+	}
+	c.setDL(which, t)
+}
+
+// ownDLConn is what an application's WrapConn returns when its layer
+// implements deadlines itself: only deadlines set on it affect I/O.
+type ownDLConn struct{ c *Conn }
+
+func (w ownDLConn) Read(p []byte) (int, error)         { return w.c.Read(p) }
+func (w ownDLConn) Write(p []byte) (int, error)        { return w.c.Write(p) }
+func (w ownDLConn) Close() error                       { return w.c.Close() }
+func (w ownDLConn) LocalAddr() net.Addr                { return w.c.LocalAddr() }
+func (w ownDLConn) RemoteAddr() net.Addr               { return w.c.RemoteAddr() }
+func (w ownDLConn) SetDeadline(t time.Time) error      { w.c.setDL("setdeadline", t); return nil }
+func (w ownDLConn) SetReadDeadline(t time.Time) error  { w.c.setDL("setreaddeadline", t); return nil }
+func (w ownDLConn) SetWriteDeadline(t time.Time) error { w.c.setDL("setwritedeadline", t); return nil }
 
 func (c *Conn) Close() error {
 	c.mu.Lock()
@@ -285,6 +313,8 @@ type wrapConn struct{ net.Conn }
 
 type scenario struct {
 	CtxKind      int           // 0 background 1 cancel-only 2 with deadline
+	WrapOwn      bool          // WrapConn returns a layer that keeps the deadlines itself (deadline calls on the conn below it change nothing)
+	BigHeader    bool          // Dialer.Header makes the request several times larger than a small WriteBufferSize
 	OwnCtx       bool          // the cancel-only context is the application's own implementation of context.Context (own Done channel), not a standard library type
 	Debug        int           // 0 ws.Dialer.Dial, 1 wsutil.DebugDialer with both callbacks, 2 with OnResponse only
 	Cause        bool          // the context carries an application cause (WithCancelCause / WithDeadlineCause); ctx.Err() is unaffected by it
@@ -306,8 +336,8 @@ type scenario struct {
 }
 
 func (s scenario) String() string {
-	return fmt.Sprintf("debug=%d ctx=%d(dl=%v cause=%v own=%v) timeout=%v connect=%v(ignoreCtx=%v) tls=%v(real=%v) statusBody=%v wrap=%v peer=%d respDelay=%v segs=%d gap=%v trailing=%v rbuf=%d segmax=%d",
-		s.Debug, s.CtxKind, s.CtxDeadline, s.Cause, s.OwnCtx, s.Timeout, s.ConnectDelay, s.IgnoreCtx, s.TLS, s.RealTLS, s.StatusBody, s.Wrap, s.Peer, s.RespDelay, s.Segs, s.Gap, s.Trailing, s.RBuf, s.SegMax)
+	return fmt.Sprintf("debug=%d wrapown=%v bighdr=%v ctx=%d(dl=%v cause=%v own=%v) timeout=%v connect=%v(ignoreCtx=%v) tls=%v(real=%v) statusBody=%v wrap=%v peer=%d respDelay=%v segs=%d gap=%v trailing=%v rbuf=%d segmax=%d",
+		s.Debug, s.WrapOwn, s.BigHeader, s.CtxKind, s.CtxDeadline, s.Cause, s.OwnCtx, s.Timeout, s.ConnectDelay, s.IgnoreCtx, s.TLS, s.RealTLS, s.StatusBody, s.Wrap, s.Peer, s.RespDelay, s.Segs, s.Gap, s.Trailing, s.RBuf, s.SegMax)
 }
 
 // cancelPlan says when the harness cancels the caller's context.
@@ -430,6 +460,12 @@ func dialOnce(sc scenario, plan cancelPlan, o *outcome) {
 			}
 		}
 		d := ws.Dialer{Timeout: sc.Timeout, ReadBufferSize: sc.RBuf}
+		if sc.BigHeader {
+			// A request that does not fit the write buffer: the connection is
+			// written to from inside the header writer, several times.
+			d.WriteBufferSize = 64
+			d.Header = ws.HandshakeHeaderString("X-Pad: " + strings.Repeat("p", 300) + "\r\nX-More: " + strings.Repeat("q", 200) + "\r\n")
+		}
 		d.NetDial = func(dctx context.Context, network, addr string) (net.Conn, error) {
 			if sc.IgnoreCtx {
 				time.Sleep(sc.ConnectDelay)
@@ -534,6 +570,17 @@ func dialOnce(sc scenario, plan cancelPlan, o *outcome) {
 		}
 		if sc.Wrap {
 			d.WrapConn = func(c net.Conn) net.Conn { return wrapConn{c} }
+		}
+		if sc.WrapOwn {
+			d.WrapConn = func(c net.Conn) net.Conn {
+				if sc, ok := c.(*Conn); ok && sc != nil {
+					sc.mu.Lock()
+					sc.owned = true
+					sc.mu.Unlock()
+					return ownDLConn{sc}
+				}
+				return c
+			}
 		}
 		if plan.Kind == "time" {
 			if plan.At == 0 {
@@ -661,6 +708,7 @@ func drawScenario(r *eng.Run) scenario {
 	sc.CtxKind = r.T.Int(sim.LCfg, 3)
 	sc.Cause = sc.CtxKind != 0 && r.T.Chance(sim.LCfg, 1, 4)
 	sc.OwnCtx = sc.CtxKind == 1 && !sc.Cause && r.T.Chance(sim.LCfg, 1, 4)
+	sc.BigHeader = r.T.Chance(sim.LCfg, 1, 4)
 	if r.T.Chance(sim.LCfg, 1, 5) {
 		sc.Debug = 1 + r.T.Int(sim.LCfg, 2)
 	}
@@ -674,6 +722,7 @@ func drawScenario(r *eng.Run) scenario {
 	sc.Trailing = r.T.Bool(sim.LCfg)
 	sc.TLS = r.T.Chance(sim.LCfg, 1, 4)
 	sc.Wrap = r.T.Chance(sim.LCfg, 1, 4)
+	sc.WrapOwn = !sc.TLS && !sc.Wrap && r.T.Chance(sim.LCfg, 1, 4)
 	sc.RBuf = []int{0, 16, 64}[r.T.Int(sim.LSize, 3)]
 	sc.SegMax = []int{0, 1, 7}[r.T.Int(sim.LSeg, 3)]
 	// Deadlines avoid exact ties with peer events (multiples of 50ms): +-1ms.
